@@ -6,23 +6,25 @@
    Guard of the theorems ([node_ok], at every node of the tree): strings and member names are
    byte strings (0..255; any bytes incl. NUL, control bytes, non-UTF-8 — read byte-wise, see
    SerSpec.v); a uint64 node is not negative; a double printed through %.17g is FINITE (NaN and
-   Infinity are printed as words, which are not JSON: the property says "any finite double") and —
-   the guard of the refuted part — JSON_C_TO_STRING_NOZERO is off or its %.17g text has no
-   exponent; a retained text is an RFC 8259 number token (what the parser retains; a caller of
+   Infinity are printed as words, which are not JSON: the property says "any finite double");
+   a retained text is an RFC 8259 number token (what the parser retains; a caller of
    json_object_new_double_s chooses it).  Hypothesis on the oracle ([fmt17_ok]): %.17g prints
-   [-]digits[.digits][e(+|-)digits], lower-case e, under 126 bytes, fraction not ending in 0. *)
+   [-]digits[.digits][e(+|-)digits], lower-case e, under 126 bytes, fraction not ending in 0.
+   History: until json-c commit c53b19e the NOZERO scan ran through the exponent (class
+   nozero_eats_exponent: 1.5e+20 printed as 1.5e+2); the theorems below are about the repaired code
+   and carry no NOZERO guard; C02_nozero_old_scan_eats_exponent keeps the old behaviour on record. *)
 From JC Require Import Base Value SerModel SerSpec SerProofs.
 Local Open Scope Z_scope.
 
 (* ---- 1. valid RFC 8259 text that denotes exactly the tree: every tree, every flag word without COLOR *)
 Theorem C02_ser_is_valid : forall fmt17, fmt17_ok fmt17 -> forall fl v,
-  color fl = false -> jv_Forall (node_ok fmt17 fl) v ->
+  color fl = false -> jv_Forall node_ok v ->
   exists s, stx_ok s = true /\ render s = serialize fmt17 fl 0 v /\ denotes fmt17 (value s) v.
 Proof. exact ser_is_valid. Qed.
 Print Assumptions C02_ser_is_valid.
 
 Theorem C02_ser_is_rfc8259 : forall fmt17, fmt17_ok fmt17 -> forall fl v,
-  color fl = false -> jv_Forall (node_ok fmt17 fl) v -> rfc8259_text (serialize fmt17 fl 0 v).
+  color fl = false -> jv_Forall node_ok v -> rfc8259_text (serialize fmt17 fl 0 v).
 Proof. exact ser_is_rfc8259. Qed.
 Print Assumptions C02_ser_is_rfc8259.
 
@@ -59,44 +61,44 @@ Proof. exact reported_length. Qed.
 Print Assumptions C02_reported_length.
 
 (* ---- 2. formatting flags change only insignificant whitespace, colour sequences, and the escape form of '/' *)
-(* proved for all 64 flag words under the guard (inside node_ok): NOZERO off, or no exponent in a %.17g text *)
-Theorem C02_flags_only_whitespace_partial : forall fmt17, fmt17_ok fmt17 -> forall fl v,
-  jv_Forall (node_ok fmt17 fl) v ->
+(* full strength: all 64 flag words (SPACED, PRETTY, PRETTY_TAB, NOZERO, NOSLASHESCAPE, COLOR), every tree *)
+Theorem C02_flags_only_whitespace : forall fmt17, fmt17_ok fmt17 -> forall fl v,
+  jv_Forall node_ok v ->
   significant (serialize fmt17 fl 0 v) = significant (serialize fmt17 flags_plain 0 v).
-Proof. exact flags_only_whitespace_partial. Qed.
-Print Assumptions C02_flags_only_whitespace_partial.
+Proof. exact flags_only_whitespace. Qed.
+Print Assumptions C02_flags_only_whitespace.
 
-(* the full statement (guard without the NOZERO clause) is FALSE of the code as written:
-   class nozero_eats_exponent, witness 1.5e+20 -> 1.5e+2 under JSON_C_TO_STRING_NOZERO *)
-Theorem C02_nozero_refuted : ~ flags_only_whitespace.
-Proof. exact nozero_refuted. Qed.
-Print Assumptions C02_nozero_refuted.
+(* non-vacuity on the former witnesses: 1.5e+20 and 2.5e-10 under JSON_C_TO_STRING_NOZERO keep their exponent *)
+Theorem C02_nozero_examples :
+  serialize w_fmt17 w_flags 0 (JDouble w_bits None) = w_text /\
+  serialize w_fmt17 w_flags 0 (JDouble w2_bits None) = w2_text /\
+  significant (serialize w_fmt17 w_flags 0 (JArr [JDouble w_bits None; JDouble w2_bits None]))
+  = significant (serialize w_fmt17 flags_plain 0 (JArr [JDouble w_bits None; JDouble w2_bits None])).
+Proof. exact nozero_examples. Qed.
+Print Assumptions C02_nozero_examples.
 
-Theorem C02_nozero_value_refuted :
-  serialize w_fmt17 w_flags 0 (JDouble w_bits None) = [49;46;53;101;43;50] /\
-  serialize w_fmt17 flags_plain 0 (JDouble w_bits None) = w_text /\
-  exists n, num_ok n = true /\ render_num n = serialize w_fmt17 w_flags 0 (JDouble w_bits None) /\
-            ~ dec_eq (num_val n) (num_val w_tok).
-Proof. exact nozero_value_refuted. Qed.
-Print Assumptions C02_nozero_value_refuted.
+(* the NOZERO scan trims the fraction only and keeps every exponent verbatim *)
+Theorem C02_nozero_keeps_exponent : forall fr e,
+  forallb digit fr = true -> nozero_trim (fr ++ render_exp e) = trim_zeros fr ++ render_exp e.
+Proof. exact nozero_keeps_exponent. Qed.
+Print Assumptions C02_nozero_keeps_exponent.
 
-(* the repair (scan only the fraction: nozero_span := split_exp) keeps every exponent verbatim *)
-Theorem C02_nozero_repaired_keeps_exponent : forall fr e,
-  forallb digit fr = true -> exp_ok e = true ->
-  nozero_trim_with split_exp (fr ++ render_exp e) = trim_zeros fr ++ render_exp e.
-Proof. exact nozero_repaired_keeps_exponent. Qed.
-Print Assumptions C02_nozero_repaired_keeps_exponent.
+(* on record: the scan as written before commit c53b19e (to the end of the buffer) ate exponent digits *)
+Theorem C02_nozero_old_scan_eats_exponent :
+  nozero_trim_with (fun rest => (rest, [])) [53;101;43;50;48] = [53;101;43;50] /\
+  nozero_trim [53;101;43;50;48] = [53;101;43;50;48].
+Proof. exact nozero_old_scan_eats_exponent. Qed.
+Print Assumptions C02_nozero_old_scan_eats_exponent.
 
 (* ---- 3. round trip through the tokener model (TokModel.parse_ex_cstr) *)
 (* proved: every flag word without COLOR, every scalar tree ([scalar_ok]): all int64, all uint64 (a uint64 <=
    INT64_MAX comes back as an int64 node, equal), all byte strings incl. NUL/control/non-UTF-8, all finite
-   doubles (the strtod oracle is assumed to read the emitted token back as the double; the NOZERO guard as
-   above) and retained texts with a fraction or exponent: json-c re-parses its own output, the result is
+   doubles (the strtod oracle is assumed to read the emitted token back as the double) and retained texts with a fraction or exponent: json-c re-parses its own output, the result is
    json_object_equal to the original and serializes to the same text.
    NOT proved: containers ([roundtrip_statement] is the full statement); they are covered by the computed
    example below and by the differential correspondence stream of ./check C02 *)
 Theorem C02_roundtrip_scalars_partial : forall fmt17 strtod, fmt17_ok fmt17 -> forall fl v,
-  color fl = false -> scalar_ok fmt17 strtod fl v -> roundtrip_ok fmt17 strtod fl v.
+  color fl = false -> scalar_ok fmt17 strtod v -> roundtrip_ok fmt17 strtod fl v.
 Proof. exact roundtrip_scalars_partial. Qed.
 Print Assumptions C02_roundtrip_scalars_partial.
 
@@ -111,19 +113,13 @@ Print Assumptions C02_parse_num_token.
 
 (* non-vacuity / end to end inside Coq: a nested tree with every node type, strings with '/', quote,
    backslash, NUL, 0x1f and UTF-8, doubles 1.5 1.0 -0.0 0.1 1e+20 1.5e+20, empty containers, under the
-   16 flag words over SPACED/PRETTY/PRETTY_TAB/NOSLASHESCAPE: re-parsed, equal, re-serialized identically *)
+   32 flag words without COLOR (NOZERO included): re-parsed, equal, re-serialized identically *)
 Theorem C02_roundtrip_examples : forallb (fun fl => roundtrip_okb ex_fmt17 ex_strtod fl ex_tree) ex_flags = true.
 Proof. exact roundtrip_examples. Qed.
 Print Assumptions C02_roundtrip_examples.
 
-(* ... and under NOZERO the same tree does not survive (1.5e+20 comes back as 150) *)
-Theorem C02_roundtrip_nozero_example :
-  roundtrip_okb ex_fmt17 ex_strtod (mkfl false false true false false false) ex_tree = false.
-Proof. exact roundtrip_nozero_example. Qed.
-Print Assumptions C02_roundtrip_nozero_example.
-
 (* non-vacuity of the guard and of the oracle hypothesis: the example oracle satisfies fmt17_ok on the
    example's doubles, and the example tree satisfies node_ok *)
-Theorem C02_nonvacuous : fmt17_ok w_fmt17 /\ jv_Forall (node_ok w_fmt17 flags_plain) (JArr [JDouble w_bits None; JStr [0;47;255]; JObj [([97], JNull)]]).
+Theorem C02_nonvacuous : fmt17_ok w_fmt17 /\ jv_Forall node_ok (JArr [JDouble w_bits None; JStr [0;47;255]; JObj [([97], JNull)]]).
 Proof. exact nonvacuous. Qed.
 Print Assumptions C02_nonvacuous.
